@@ -192,6 +192,12 @@ def getNext (l : QList) (c : Cursor) : Except Fault (BoolRes × Cursor) :=
                           prev := if p = 0 then none else idAt l.elems (p - 1),
                           next := idAt l.elems (p + 1) })
 
+/-- qlist_getnext(list, NULL, newmem): `if (obj == NULL) return false;` — errno is not touched -/
+def getNextNull : BoolRes := (false, .ok)
+
+/-- qlist_debug(list, NULL) (also behind qqueue/qstack/qgrow ->debug): false, errno = EIO -/
+def debugNull : BoolRes := (false, .EIO)
+
 /-- `memset(&obj, 0, …); while (getnext(list, &obj, …)) collect obj.data` with a step bound -/
 def walkFrom (l : QList) : Nat → Cursor → Except Fault (List Bytes)
   | 0, _ => .error .outOfFuel
